@@ -198,6 +198,10 @@ CORE = {
     'C15': {_MAP: ['interpolate', 'interp_volume_average',
                    '_interp_volume_average_adj', '_points_from_grids'],
             _MOD: ['Model.interpolate_to_grid']},
+    'C16': {'emg3d/meshes.py': ['construct_mesh', 'origin_and_widths',
+                                '_stretch', '_seasurface', 'good_mg_cell_nr',
+                                'skin_depth', 'wavelength', 'cell_width',
+                                'estimate_gridding_opts']},
     'C17': {_IO: ['save', 'load', 'convert', '_dict_serialize',
                   '_dict_deserialize', '_nonetype_to_none', '_dict_flatten',
                   '_dict_unflatten', '_dict_dearray_decomp',
